@@ -187,7 +187,7 @@ def items(tier: str, seed: int):
     pn = 3 if tier == "quick" else 4
     dn2, fn2 = ["legacy", "legacy2", "sub"], ["a.py", "a_gen.py", "file1.py"]
     pts = [t for n in range(1, pn + 1) for t in trees(n, 2, dn2, fn2)]
-    carriers = ["ignorefile", "yaml"] if tier == "quick" else ["ignorefile", "yaml", "both"]
+    carriers = ["ignorefile", "yaml", "explicit"] if tier == "quick" else ["ignorefile", "yaml", "explicit", "both"]
     psets = [[p] for p in PAT_SINGLE]
     if tier == "thorough":
         psets += [list(c) for c in itertools.combinations(PAT_SINGLE, 2)]
@@ -207,7 +207,7 @@ def _materialise(t, patterns, carrier):
     cfg = dict(PLACEMENT)
     extra = [".thailint.yaml"]
     if patterns:
-        if carrier == "yaml":
+        if carrier in ("yaml", "explicit"):
             cfg["ignore"] = list(patterns)
         elif carrier == "ignorefile":
             content[".thailintignore"] = "# patterns\n" + "\n".join(patterns) + "\n"
@@ -217,7 +217,12 @@ def _materialise(t, patterns, carrier):
             content[".thailintignore"] = "\n".join(patterns[:half]) + "\n"
             cfg["ignore"] = list(patterns[half:]) or list(patterns[:1])
             extra.append(".thailintignore")
-    content[".thailint.yaml"] = yaml_dump(cfg)
+    if carrier == "explicit":
+        # the whole configuration is handed over with --config; nothing is auto-discovered
+        content["lintcfg/chosen.yaml"] = yaml_dump(cfg)
+        extra = ["lintcfg/chosen.yaml"]
+    else:
+        content[".thailint.yaml"] = yaml_dump(cfg)
     root = project(content)
     for d in dirs:
         (root / d).mkdir(parents=True, exist_ok=True)
@@ -225,7 +230,7 @@ def _materialise(t, patterns, carrier):
 
 
 def _one_run(acc, root, allfiles, patterns, carrier, target, recursive, is_file, tree, front="inproc"):
-    argv = ["file-placement"] + ([] if recursive else ["--no-recursive"]) + [target]
+    argv = ["file-placement"] + (["--config", "lintcfg/chosen.yaml"] if carrier == "explicit" else []) + ([] if recursive else ["--no-recursive"]) + (["--parallel"] if front == "parallel" else []) + [target]
     r = obs.cli_json(argv, root, sub=(front == "subprocess"))
     case = {"tree": tree, "patterns": patterns, "carrier": carrier, "target": target, "recursive": recursive, "is_file": is_file}
     acc.case()
@@ -284,6 +289,10 @@ def _all_targets(acc, root, allfiles, dirs, patterns, carrier, tree, front="inpr
     explicit file run = membership in the root run."""
     whole = _one_run(acc, root, allfiles, patterns, carrier, ".", True, False, tree, front)
     flat = _one_run(acc, root, allfiles, patterns, carrier, ".", False, False, tree, front)
+    if front == "inproc":
+        # the same two runs with --parallel (the file set is collected before any pool is used)
+        _one_run(acc, root, allfiles, patterns, carrier, ".", True, False, tree, "parallel")
+        _one_run(acc, root, allfiles, patterns, carrier, ".", False, False, tree, "parallel")
     case = {"tree": tree, "patterns": patterns, "carrier": carrier}
     if whole is not None and flat is not None:
         acc.edge()
@@ -298,10 +307,10 @@ def _all_targets(acc, root, allfiles, dirs, patterns, carrier, tree, front="inpr
         if "/" not in d:
             _one_run(acc, root, allfiles, patterns, carrier, d, False, False, tree, front)
     # several targets in one invocation: directory (recursive / non-recursive) + an explicit file
-    nested = [f for f in allfiles if "/" in f and not f.startswith(".thailint")][:2]
+    nested = [f for f in allfiles if "/" in f and not f.startswith((".thailint", "lintcfg/"))][:2]
     for f in nested:
         for rec in (True, False):
-            argv = ["file-placement"] + ([] if rec else ["--no-recursive"]) + [".", f]
+            argv = ["file-placement"] + (["--config", "lintcfg/chosen.yaml"] if carrier == "explicit" else []) + ([] if rec else ["--no-recursive"]) + [".", f]
             r = obs.cli_json(argv, root, sub=(front == "subprocess"))
             acc.case()
             acc.edge()
@@ -315,7 +324,7 @@ def _all_targets(acc, root, allfiles, dirs, patterns, carrier, tree, front="inpr
                 miss, extra = sorted(want - got - open_), sorted(got - want - open_)
                 acc.fail({"edge": "dir-plus-explicit-file", "recursive": rec, "mode": "missing" if miss and not extra else ("extra" if extra and not miss else "differs")}, {"tree": tree, "patterns": patterns, "carrier": carrier, "target": [".", f], "recursive": rec, "is_file": False, "multi": True}, sorted(want), sorted(got), "directory target plus an explicitly named file in one invocation = union of both")
     for f in allfiles:
-        if f.startswith(".thailint"):
+        if f.startswith((".thailint", "lintcfg/")):
             continue
         one = _one_run(acc, root, allfiles, patterns, carrier, f, True, True, tree, front)
         if whole is not None and one is not None:
